@@ -172,9 +172,9 @@ func cmdCheck(args []string) int {
 	}
 	start := time.Now()
 	defer cleanupWorkDir()
-	quickSec, fullSec := 3, 20
+	quickSec, fullSec := 5, 30
 	if tier == "thorough" {
-		quickSec, fullSec = 5, 90
+		quickSec, fullSec = 10, 120
 	}
 	expected, order := loadExpected(prop)
 	findings := loadKnownFindings()
@@ -189,7 +189,7 @@ func cmdCheck(args []string) int {
 		path := filepath.Join(replayDir, "load-failure.txt")
 		os.WriteFile(path, []byte("govc could not load /repo with -tags verif:\n"+err.Error()+"\n"), 0o644)
 		fmt.Printf("VIOLATION property=%s replay=%s obligation=<all> reason=repo-does-not-load no-failing-input-found\n", prop, path)
-		writeEvidence(prop, tier, seed, nil, nil, expected, order, nil, nil, 1, time.Since(start).Seconds(), nil)
+		writeEvidence(prop, tier, seed, nil, nil, expected, order, nil, nil, 1, time.Since(start).Seconds(), nil, 0)
 		return 1
 	}
 	out := runProperty(w, prop, quickSec, fullSec, expected)
@@ -309,7 +309,7 @@ func cmdCheck(args []string) int {
 	for _, v := range violations {
 		fmt.Println(v)
 	}
-	writeEvidence(prop, tier, seed, w, out, expected, order, knownLines, violations, len(violations), time.Since(start).Seconds(), handledKF)
+	writeEvidence(prop, tier, seed, w, out, expected, order, knownLines, violations, len(violations), time.Since(start).Seconds(), handledKF, discharged)
 	if len(violations) > 0 {
 		return 1
 	}
@@ -368,7 +368,7 @@ func cmdClaim(args []string) int {
 				}
 				continue
 			}
-			if o.Res.Ms > 6000 {
+			if o.Res.Ms > 4000 {
 				slow++
 				fmt.Printf("  not claimed (slow %dms): %s\n", o.Res.Ms, o.Name)
 				continue
@@ -408,7 +408,7 @@ func isSafetyKind(k string) bool {
 
 // ---------------------------------------------------------------- evidence
 
-func writeEvidence(prop, tier string, seed int, w *World, out *checkOutcome, expected map[string]bool, order []string, known []string, violations []string, nviol int, wall float64, handledKF map[string]bool) {
+func writeEvidence(prop, tier string, seed int, w *World, out *checkOutcome, expected map[string]bool, order []string, known []string, violations []string, nviol int, wall float64, handledKF map[string]bool, mainDischarged int) {
 	type oblRec struct {
 		Name   string `json:"name"`
 		Kind   string `json:"kind"`
@@ -429,6 +429,7 @@ func writeEvidence(prop, tier string, seed int, w *World, out *checkOutcome, exp
 	var fns []fnRec
 	var samples []interface{}
 	claimed, discharged := 0, 0
+	_ = discharged
 	var undecided []string
 	solverMs := map[string]int64{}
 	solverN := map[string]int{}
@@ -510,7 +511,7 @@ func writeEvidence(prop, tier string, seed int, w *World, out *checkOutcome, exp
 		"level":       "proof",
 		"coverage": map[string]interface{}{
 			"obligations":  len(order),
-			"discharged":   discharged,
+			"discharged":   mainDischarged,
 			"checker_cmd":  "bin/check " + prop + " " + tier + "  (govc: go/ssa NaiveForm -> weakest-precondition style VCs -> z3-new 5.1.0 | cvc5 1.0 | z3 4.8.12 raced per obligation)",
 			"trusted_base": []string{"go/packages+go/types+go/ssa v0.29.0", "govc VC generator (/verif/govc)", "z3 4.8.12", "z3-new 5.1.0", "cvc5 1.0", "contract files /repo/*/zz_verif_contracts.go (specs written from the property statements)"},
 			"samples":      samples,
